@@ -84,6 +84,9 @@ Section Proofs.
     assert (PX : XWORD_MAX = 2 ^ 64 - 1) by reflexivity.
     unfold insert_data.
     destruct (N.eqb_spec (sh_type s) SHT_NOBITS) as [E|_]; [contradiction|].
+    assert (Hres : (match s_data s with None => true | Some _ => false end) && negb (sh_size s =? 0) = false).
+    { destruct (s_data s); [reflexivity|]. destruct HD as [-> _]. reflexivity. }
+    rewrite Hres.
     cbn [spec_step]. rewrite Hlen.
     destruct (N.ltb_spec (sh_size s) pos) as [Hpos|Hpos].
     { exists s. repeat split; try assumption; lia. }
